@@ -50,7 +50,7 @@ def Normalize(V):   # pragma: no cover
     Output:
         np.array([0.26726124, 0.53452248, 0.80178373])
     """
-    return V / Norm(V)
+    return V / np.sqrt(np.sum(V * V))
 
 @jit(nopython=True)
 def AngleMod(rad):   # pragma: no cover
